@@ -85,6 +85,7 @@ func (c *collector) flush(r *core.Run) {
 }
 
 func main() {
+	core.SuperviseSelf("C16") // a runtime fatal error inside the code under test is a finding, not a harness error
 	only := flag.String("only", "", "run only harness A or B (debugging)")
 	onlyCfg := flag.String("cfg", "", "harness A: run only configurations whose name contains this text (debugging)")
 	r := core.Start("C16")
